@@ -24,6 +24,13 @@ def _shapes_for(C, tier):
         if q is not None:
             q = q.__func__ if hasattr(q, "__func__") else q
             idxs = [i for i in idxs if q(C.shapes[i])]
+    else:
+        # `thorough` may drop shapes that are known to exhaust the path / solver budget (they are then NOT covered, and the
+        # contract says so): an undecided obligation would make the run an incomplete proof
+        t = getattr(C, "thorough", None)
+        if t is not None:
+            t = t.__func__ if hasattr(t, "__func__") else t
+            idxs = [i for i in idxs if t(C.shapes[i])]
     return idxs
 
 
